@@ -379,6 +379,9 @@ def scenario_spec(draw, c=None):
     constraints = []
     rcc = True
 
+    def derived_args(name):
+        return next((d["args"] for d in derived if d["name"] == name), [])
+
     def dfac(name, args, kind, n=2, width=1):
         d = {"name": name, "args": args, "kind": kind, "width": width, "stride": 1, "start": None,
              "levels": [["%s%d" % (name.lower(), j), 1] for j in range(n)], "else_last": draw(st.integers(0, 3)) == 0,
@@ -388,7 +391,9 @@ def scenario_spec(draw, c=None):
     if "crossed-within-uncrossed-source" in feats:
         dfac("X", ["A", "B"], "within")
         crossing = draw(st.sampled_from([["A", "X"], ["X"], ["X", "A"]]))
-    if "weight-derived-crossed" in feats and "crossed-within-uncrossed-source" not in feats:
+    if "weight-derived-crossed" in feats and "crossed-within-uncrossed-source" in feats:
+        derived[-1]["levels"][draw(st.integers(0, 1))][1] = draw(st.sampled_from([2, 2, 3]))    # the X built just above
+    elif "weight-derived-crossed" in feats:
         d = dfac("X", draw(st.sampled_from([["B"], ["A", "B"], ["B", "A"]])), "within", n=draw(st.sampled_from([2, 2, 3])))
         d["levels"][draw(st.integers(0, len(d["levels"]) - 1))][1] = draw(st.sampled_from([2, 2, 3]))
         crossing = draw(st.sampled_from([["X"], ["X"], ["A", "X"]])) if "A" not in d["args"] else ["X"]
@@ -398,8 +403,11 @@ def scenario_spec(draw, c=None):
         d1 = dfac("P", [draw(st.sampled_from(["A", "B"]))], "transition", width=2)
         k2 = draw(st.sampled_from(["transition", "transition", "within", "window"]))
         d2 = dfac("Q", ["P"], k2, width=1 if k2 == "within" else 2)
+        keep = [x for x in crossing if x == "X"] if draw(st.booleans()) else []      # an earlier feature's crossed factor may stay
         crossing = draw(st.sampled_from([["Q"], ["A", "Q"], ["Q", "B"]]))
-        crossing = [x for x in crossing if x not in d1["args"]] or ["Q"]
+        crossing = keep + ([x for x in crossing if x not in d1["args"] and x not in keep] or ["Q"])
+        if keep:
+            crossing = [x for x in crossing if x not in derived_args("X")]
     if "exclude-uncrossed-derived" in feats:
         dfac("W", draw(st.sampled_from([["A", "B"], ["B"], ["B", "A"]])), "within")
         constraints.append({"kind": "exclude", "factor": "W", "level": "w%d" % draw(st.integers(0, 1))})
@@ -480,6 +488,21 @@ def scenario_spec(draw, c=None):
         spec["block"] = {"type": "repeat", "block": block, "constraints": [{"kind": "min", "k": T + extra}]}
     if c.get("aux"):
         spec["aux"] = draw(st.integers(0, 2 ** 30))
+    # a basic factor that is neither crossed, nor an argument of a derived factor, nor named by a constraint only
+    # multiplies the number of sequences (|levels|^T); half of the time it is cut down to one level so that the design
+    # stays within reach of the checks that enumerate every sequence
+    used = set()
+    for b in S.iter_blocks(spec["block"]):
+        for cr in S.block_crossings(b):
+            used.update(cr)
+        for x in b.get("constraints", []):
+            used.update([x["factor"]] if x.get("factor") else [])
+            used.update(x.get("factors") or [])
+    for d in derived:
+        used.update(d["args"])
+    for f in factors:
+        if f["name"] not in used and len(f["levels"]) > 1 and draw(st.booleans()):
+            f["levels"] = f["levels"][:1]
     spec["scenario"] = sorted(feats)
     return _snap_pins(draw, spec, always="pin" in feats)
 
